@@ -59,6 +59,9 @@ var randState struct {
 	seed uint64
 	ctr  atomic.Uint64
 	on   atomic.Bool
+	// stepMode: the value is a function of (seed, scheduler step, n) instead of a call counter, i.e. constant within
+	// a step. For code paths that draw several values in an order decided by Go map iteration (cluster refresh).
+	stepMode atomic.Bool
 }
 
 // muxReg records every multiplexer created during the current run (announced through VerifHooks.NewMux), per
@@ -159,13 +162,24 @@ func installHooks() {
 		if !randState.on.Load() || n <= 0 {
 			return 0, false
 		}
+		if randState.stepMode.Load() {
+			if s := curSim.Load(); s != nil {
+				return int(mix(randState.seed^(uint64(n)*0x9e3779b97f4a7c15), uint64(s.Step)+1<<40) % uint64(n)), true
+			}
+		}
 		return int(mix(randState.seed, randState.ctr.Add(1)) % uint64(n)), true
 	}
 	util.VerifShuffle = func(n int, swap func(i, j int)) bool {
 		if !randState.on.Load() {
 			return false
 		}
-		r := rand.New(rand.NewPCG(randState.seed, randState.ctr.Add(1)))
+		c := randState.ctr.Add(1)
+		if randState.stepMode.Load() {
+			if s := curSim.Load(); s != nil {
+				c = uint64(s.Step) + 1<<40
+			}
+		}
+		r := rand.New(rand.NewPCG(randState.seed, c))
 		r.Shuffle(n, swap)
 		return true
 	}
@@ -262,6 +276,13 @@ func yieldIdentity(ctx context.Context, site string, obj any, cmd []string) stri
 		where = "wire?"
 		if f := muxwireName.Load(); f != nil {
 			where = (*f)(o)
+		}
+		if where == "wire-new" || where == "wire?" {
+			// clients other than singleClient (cluster, sentinel, standalone): name the wire through the registry
+			// of multiplexers, "<dst>/<k>#<i>" = wire i of the k-th multiplexer created for dst in this run
+			if n := muxRegName(o); n != "" {
+				where = n
+			}
 		}
 	case *pool:
 		where = "pool"
